@@ -1,7 +1,7 @@
 (* C02 — theorems.  Only statements and `exact lemma` here.  NOTES.md says in plain words what each
    one means and what is not proved. *)
 From GixV.Base Require Import Bytes Outcome.
-From GixV.C02 Require Import Model Spec ProofsTree ProofsIter ProofsTagIter ProofsWrite ProofsKnown.
+From GixV.C02 Require Import Model Spec ProofsTree ProofsIter ProofsTagIter ProofsWrite ProofsKnown ProofsTime ProofsSig.
 
 (* ---- trees ------------------------------------------------------------------------------------ *)
 
@@ -81,6 +81,15 @@ Proof. exact L_time_write_of. Qed.
 Theorem signature_reencodes_as_git_wrote_it : forall s, sig_wf s = true ->
   sig_write (sig_of s) = Ok (git_write_sig s).
 Proof. exact L_sig_write_of. Qed.
+
+(* … and the decoder reads git's bytes back to exactly those values, stopping in front of the LF *)
+Theorem time_decodes_as_git_wrote_it : forall t rest, time_wf t = true ->
+  time_parts (git_write_time t ++ x0a :: rest) = POk (time_of t) (x0a :: rest).
+Proof. exact L_time_parts_git. Qed.
+
+Theorem signature_decodes_as_git_wrote_it : forall s rest, sig_wf s = true ->
+  sig_decode (git_write_sig s ++ x0a :: rest) = POk (sig_of s) (x0a :: rest).
+Proof. exact L_sig_decode_git. Qed.
 
 Example sig_example : sig_wf (mkGSig (bs " A U Thor ") (bs "a b@c") (mkGTime (-1) true 99 59)) = true.
 Proof. vm_compute. reflexivity. Qed.
